@@ -34,7 +34,7 @@ impl<const CAP: usize> RecordMaybeUninit<CAP> {
     pub unsafe fn write<T>(&mut self, offset: usize, t: T) {
         #[cfg(feature = "verif-hooks")]
         crate::verif_hooks::record::<T>("write", self.data.as_ptr() as usize, offset, CAP);
-        std::ptr::write((self.data.as_mut_ptr().add(offset) as *mut u8).cast(), t);
+        std::ptr::write_unaligned((self.data.as_mut_ptr().add(offset) as *mut u8).cast(), t);
     }
 
     /// Gets a reference to object of type `T` from the record at offset `offset`.
